@@ -443,6 +443,18 @@ def _np_tile(args, kwargs, st, eng):
     return _mk_array(st, VSeq(z3.If(r > 0, sq.len * r, 0), lambda k: sq.elem(k % sq.len), sq.etype), 2)
 
 
+@lib("torch.tile")
+def _torch_tile(args, kwargs, st, eng):
+    """torch.tile(t, dims=[r]) of a 1-d tensor: r whole copies (the same assumed contract as numpy.tile)"""
+    sq = eng.as_seq(args[0], st)
+    dims = eng.deref(kwargs.get("dims", args[1] if len(args) > 1 else None), st)
+    dims = eng.as_seq(dims, st)
+    if dims.concrete is None or len(dims.concrete) != 1:
+        raise Unsupported("torch.tile with anything but one repetition count")
+    r = _e.to_int(eng.deref(dims.concrete[0], st))
+    return _mk_array(st, VSeq(z3.If(r > 0, sq.len * r, 0), lambda k: sq.elem(k % sq.len), sq.etype), 1)
+
+
 def _shuffle(gen_of):
     def h(args, kwargs, st, eng):
         """in-place shuffle: afterwards a[k] == old[Perm(key, draw, n, k)] (a permutation that is a function of the generator)"""
@@ -528,6 +540,19 @@ def _torch_max(args, kwargs, st, eng):
     r = VSeq.of([VInt(m)], INT)
     r.kind = z3.IntVal(1)
     return r
+
+
+@lib("numpy.max")
+def _np_max(args, kwargs, st, eng):
+    """np.max of a non-empty 1-d integer array: an upper bound that is attained (a numpy scalar)"""
+    sq = eng.as_seq(args[0], st)
+    if not isinstance(sq.etype, TInt) or len(args) != 1 or kwargs:
+        raise Unsupported("numpy.max of anything but one 1-d integer array")
+    m, k, w = z3.Int(uid("npmax")), z3.Int(uid("k")), z3.Int(uid("argmax"))
+    eng.safety(st, "max:nonempty", sq.len > 0, None, "np.max of an empty array raises")
+    st.assume(z3.ForAll([k], z3.Implies(z3.And(0 <= k, k < sq.len), _e.to_int(sq.elem(k)) <= m)),
+              0 <= w, w < sq.len, _e.to_int(sq.elem(w)) == m)
+    return VInt(m)
 
 
 def _class_counts(args, kwargs, st, eng):
